@@ -21,7 +21,7 @@ from vf.fakes3 import FakeS3Client, FakeS3Store, client_error
 KEYS = ["a", "ab", "a.b", "data/x", "data/y.parquet", "data2/x", "data.bak", "datafile", "metadata/v1",
         "metadata/manifests/m1", "metadata.version-hint.text", "d/e/f"]
 LIST_PREFIXES = ["data", "metadata", "metadata/manifests", "d", "d/e", "a", "", "data/", "dat", "missing", "metadata/"]
-PREFIXES = ["", "wh/t", "deep/er/prefix"]
+PREFIXES = ["", "wh/t", "deep/er/prefix", "data", "a", "metadata"]     # the last three re-occur INSIDE table-relative keys
 
 
 def outcome(fn: Any) -> Tuple[str, Any]:
@@ -96,6 +96,7 @@ class Flaky:
         self.plan: List[Any] = []
         self.method: Optional[str] = None
         self.attempts = 0
+        self.body_plan: List[Any] = []
 
     def arm(self, method: str, plan: List[Any]) -> None:
         self.method = method
@@ -118,8 +119,31 @@ class Flaky:
                 f = self.plan.pop(0)
                 if f is not None:
                     raise f()
-            return real(**kw)
+            resp = real(**kw)
+            if self.body_plan and isinstance(resp, dict) and "Body" in resp:
+                # the request succeeded; the connection breaks while the BODY is being read
+                f = self.body_plan.pop(0)
+                if f is not None:
+                    resp = dict(resp, Body=_BrokenBody(f))
+            return resp
         return call
+
+
+class _BrokenBody:
+    def __init__(self, mk: Any):
+        self.mk = mk
+
+    def read(self, *a: Any) -> bytes:
+        raise self.mk()
+
+    def close(self) -> None:
+        pass
+
+    def __enter__(self) -> "_BrokenBody":
+        return self
+
+    def __exit__(self, *a: Any) -> None:
+        pass
 
 
 TRANSIENT = {
@@ -132,6 +156,8 @@ PERMANENT = {
     "denied": lambda: client_error("AccessDenied", "Op", 403),
     "nobucket": lambda: client_error("NoSuchBucket", "Op", 404),
     "badkey": lambda: client_error("InvalidAccessKeyId", "Op", 403),
+    # what botocore reports for a HEAD request (no body to carry an error code): the bare status
+    "bare403": lambda: client_error("403", "Op", 403),
 }
 
 
@@ -156,6 +182,15 @@ class C20(Check):
         n = 160 if tier == "quick" else 3000
         for i in range(n):
             yield {"part": "diff", "i": i, "seed": seed, "prefix": PREFIXES[i % len(PREFIXES)]}
+        # every ordered triple of single-key operations after an initial write (state kept by the backend OBJECT between
+        # calls - caches, remembered sizes - shows in such short same-key sequences, rarely in random programs)
+        import itertools as _it
+        single = ["write", "delete", "size", "seekable", "exists", "read", "mtime", "open"]
+        triples = list(_it.product(single, repeat=3))
+        chunk = 64
+        for ci in range(0, len(triples), chunk):
+            yield {"part": "diff", "i": 900000 + ci, "seed": seed, "prefix": PREFIXES[(ci // chunk) % 3],
+                   "triples": [list(t) for t in triples[ci:ci + chunk]]}
         sizes = [0, 1, 2, 100, (1 << 20) - 1, (1 << 20) + 1]
         for si, size in enumerate(sizes):
             for mode in ("bare", "buffered"):
@@ -182,8 +217,20 @@ class C20(Check):
         from datashard.storage_backend import LocalStorageBackend, S3StorageBackend
 
         rng = rng_for(case["seed"], "c20", case["i"])
+        if case.get("triples"):
+            for tr in case["triples"]:
+                prog = [("write", "data/x", b"0123456789")]
+                for op in tr:
+                    prog.append(("write", "data/x", b"abc") if op == "write" else (op, "data/x"))
+                self._diff_program(dict(case, triples=None), prog, 1000, res)
+            return
         prog = gen_program(rng, rng.randint(8, 30))
-        store = FakeS3Store(page_size=rng.choice([2, 3, 1000]))
+        self._diff_program(case, prog, rng.choice([2, 3, 1000]), res)
+
+    def _diff_program(self, case: Any, prog: List[Tuple[Any, ...]], page_size: int, res: CaseResult) -> None:
+        from datashard.storage_backend import LocalStorageBackend, S3StorageBackend
+
+        store = FakeS3Store(page_size=page_size)
         with Scratch("c20") as d:
             local = LocalStorageBackend(str(d / "root"))
             os.makedirs(str(d / "root"))
@@ -416,6 +463,22 @@ class C20(Check):
                             res.violation("paged-listing-changed-by-retry",
                                           f"transient {kind} x{nfail} on page {page + 1} of a 4-page listing: result {str(got)[:160]} != {want}",
                                           {"page": page + 1, "failures": nfail, "fault": kind, "result": str(got)[:300]})
+        if op in ("read_file", "read_file_with_etag", "range_read"):
+            # the same transient faults, but striking while the response BODY is read (after a successful request)
+            for kind in ("conn", "oserror"):
+                for n in range(1, min(budget, 4) + 1):
+                    s3, fl, _st = fresh()
+                    fl.arm(meth, [])
+                    fl.body_plan = [TRANSIENT[kind]] * n
+                    got = outcome(lambda: do(s3, fl))
+                    res.count("retry_cases")
+                    res.count("body_read_faults")
+                    res.evals += 1
+                    res.key(["body", op, kind, n])
+                    if got != baseline:
+                        res.violation(f"transient-body-read-error-not-masked:{op}",
+                                      f"{n} x {kind} while reading the response body: {str(got)[:120]} instead of {str(baseline)[:60]}",
+                                      {"op": op, "fault": kind, "failures": n, "attempts": fl.attempts})
         for kind, mk in PERMANENT.items():
             for pre in range(0, budget + 1):
                 s3, fl, _st = fresh()
